@@ -484,6 +484,9 @@ func (g *G) result(meth *m.Method) {
 	if g.p.RespHeavy && rk >= 8 && len(g.resultTypes()) > 0 {
 		rk = 2
 	}
+	if g.p.ViewHeavy && rk >= 3 && len(g.resultTypes()) > 0 {
+		rk = 2
+	}
 	switch {
 	case rk == 0:
 		// no result: 204 by default, or an explicit empty 200/202
@@ -519,6 +522,11 @@ func (g *G) result(meth *m.Method) {
 		return
 	case rk == 2 && g.p.ResultTypes && len(g.resultTypes()) > 0:
 		name := rapid.SampledFrom(g.resultTypes()).Draw(t, "resulttype")
+		if g.p.Collections && rapid.IntRange(0, 3).Draw(t, "collection") == 0 &&
+			!(typeHasInlineObject(g.d.TypeByName(name)) && g.avoid("C01-collection-of-result-type-with-inline-object")) {
+			name = g.collectionOf(name)
+			g.feat("collection-result")
+		}
 		meth.Result = m.UserRef(name)
 		ut := g.d.TypeByName(name)
 		if len(ut.Views) > 1 && rapid.IntRange(0, 2).Draw(t, "fixview") == 0 {
@@ -539,10 +547,26 @@ func (g *G) result(meth *m.Method) {
 	}
 }
 
+// collectionOf returns (creating it when needed) the collection result type of a result type.
+func (g *G) collectionOf(elem string) string {
+	name := elem + "Collection"
+	if g.d.TypeByName(name) != nil {
+		return name
+	}
+	el := g.d.TypeByName(elem)
+	ut := &m.UserType{Name: name, Var: g.newVar(), Result: true, CollectionOf: elem,
+		Attr: &m.Attr{Type: &m.Type{Kind: m.Array, Elem: m.UserRef(elem)}}}
+	for _, v := range el.Views {
+		ut.Views = append(ut.Views, &m.View{Name: v.Name})
+	}
+	g.d.Types = append(g.d.Types, ut)
+	return name
+}
+
 func (g *G) resultTypes() []string {
 	var out []string
 	for _, ut := range g.d.Types {
-		if ut.Result && ut.Attr != nil {
+		if ut.Result && ut.Attr != nil && ut.CollectionOf == "" {
 			out = append(out, ut.Name)
 		}
 	}
